@@ -130,7 +130,7 @@ def coq_op(op, res, n):
     if k in ("setst", "setp"):
         return "OSet"
     if k == "tresp":
-        return "(OTresp [%s])" % ("" if t[1] == "-" else ";".join(t[1].split(",")))
+        return "(OTresp [%s])" % ("" if t[1] == "-" else ";".join(x.rstrip("x") for x in t[1].split(",")))
     raise ValueError("bad op " + op)
 
 
@@ -257,5 +257,6 @@ def protocol_scenario(rng, npeers, n, steps, weights=None):
             lst = [rng.choice(pool) for _ in range(rng.choice([0, 1, 2, 4]))]
             if lst and rng.random() < 0.5:
                 lst.append(lst[0])
-            ops.append("tresp %s" % (",".join(map(str, lst)) or "-"))
+            # ("Kx": the address of K under another peer id -- trackers list stale ids; the peer map is keyed by address)
+            ops.append("tresp %s" % (",".join("%dx" % x if rng.random() < 0.3 else str(x) for x in lst) or "-"))
     return ops
